@@ -14,9 +14,9 @@
     [BDUMP t]                              -> VERIF BLOCKING dump
 
     Harness discipline, computed alike on both sides from counts of requests written and
-    frames received ([owed] = written - received): a BSEND to a connection that owes a reply
-    (it is blocked) is skipped while another connection has requests waiting behind a
-    blocking call, and so is a BCLOSE of a connection with requests waiting - the order in
+    frames received ([owed] = written - received): a BSEND that may leave requests waiting
+    (to a connection that owes a reply, or with requests behind a blocking pop) is skipped while
+    another connection has requests waiting behind a blocking call, and so is a BCLOSE of a connection with requests waiting - the order in
     which the server would read two such connections is a HashMap iteration order. *)
 From Ferrous Require Import Base.Bytes Model.Resp Model.Types Model.Server Model.Conn Model.RunBase
   Model.RunSrv Model.Blocking.
@@ -62,8 +62,13 @@ Fixpoint zip_oracles (fs : list frame) (t : list tok) : list (frame * option Z) 
               end
   end.
 
-Definition skip_send (r : rstate) (c : Z) : bool :=
-  (0 <? owed r c) && ((zget (r_fin r) c =? 1) || existsb (fun c' => negb (c' =? c) && (1 <? owed r c')) (map fst (r_sent r))).
+(** may this write leave requests waiting: it goes to a connection that owes a reply, or it has
+    requests behind a blocking pop *)
+Definition may_wait (r : rstate) (c : Z) (batch : list (frame * option Z)) : bool :=
+  (0 <? owed r c) || existsb (fun fo => match snd fo with Some z => 0 <=? z | None => false end) (removelast batch).
+Definition skip_send (r : rstate) (c : Z) (batch : list (frame * option Z)) : bool :=
+  ((0 <? owed r c) && (zget (r_fin r) c =? 1))
+  || (may_wait r c batch && existsb (fun c' => negb (c' =? c) && (1 <? owed r c')) (map fst (r_sent r))).
 Definition has_finite (batch : list (frame * option Z)) : bool :=
   existsb (fun fo => match snd fo with Some z => 0 <? z | None => false end) batch.
 Definition unread (r : rstate) (c : Z) : list frame :=
@@ -119,9 +124,9 @@ Definition blk_op (r : rstate) (op : list tok) : list tok * rstate :=
                 if b_crashed (r_b r) then (dead_out, r) else
                 let fin0 := if owed r c =? 0 then zset_ c 0 (r_fin r) else r_fin r in
                 let r := {| r_s := r_s r; r_b := r_b r; r_now := r_now r; r_sent := r_sent r; r_read := r_read r; r_fin := fin0 |} in
-                if skip_send r c then (TI 1 :: dump_blocking (r_b r), r)
+                let batch := zip_oracles fs ot in
+                if skip_send r c batch then (TI 1 :: dump_blocking (r_b r), r)
                 else
-                  let batch := zip_oracles fs ot in
                   let sent := zset_ c (zget (r_sent r) c + n) (r_sent r) in
                   let r1 := {| r_s := r_s r; r_b := r_b r; r_now := t; r_sent := sent; r_read := r_read r;
                                r_fin := if has_finite batch then zset_ c 1 (r_fin r) else r_fin r |} in
